@@ -244,11 +244,13 @@ func (s *ManagedServer) AddCredential(username string, uPSK []byte) error {
 	}
 	s.cachedCredMap[username] = uc
 	s.cachedUserLookupMap[uc.uPSKHash] = c
-	s.mu.Unlock()
-	s.enqueueSave()
+	// Publish to the live lookup maps before releasing the lock, so that concurrent
+	// operations reach the servers in the same order as they were applied here.
 	s.updateProdULM(func(ulm ss2022.UserLookupMap) {
 		ulm[uc.uPSKHash] = c
 	})
+	s.mu.Unlock()
+	s.enqueueSave()
 	return nil
 }
 
@@ -282,12 +284,13 @@ func (s *ManagedServer) UpdateCredential(username string, uPSK []byte) error {
 	uc.uPSKHash = uPSKHash
 	delete(s.cachedUserLookupMap, oldUPSKHash)
 	s.cachedUserLookupMap[uc.uPSKHash] = c
-	s.mu.Unlock()
-	s.enqueueSave()
+	newUPSKHash := uc.uPSKHash
 	s.updateProdULM(func(ulm ss2022.UserLookupMap) {
 		delete(ulm, oldUPSKHash)
-		ulm[uc.uPSKHash] = c
+		ulm[newUPSKHash] = c
 	})
+	s.mu.Unlock()
+	s.enqueueSave()
 	return nil
 }
 
@@ -301,11 +304,12 @@ func (s *ManagedServer) DeleteCredential(username string) error {
 	}
 	delete(s.cachedCredMap, username)
 	delete(s.cachedUserLookupMap, uc.uPSKHash)
+	oldUPSKHash := uc.uPSKHash
+	s.updateProdULM(func(ulm ss2022.UserLookupMap) {
+		delete(ulm, oldUPSKHash)
+	})
 	s.mu.Unlock()
 	s.enqueueSave()
-	s.updateProdULM(func(ulm ss2022.UserLookupMap) {
-		delete(ulm, uc.uPSKHash)
-	})
 	return nil
 }
 
@@ -361,7 +365,6 @@ func (s *ManagedServer) LoadFromFile() error {
 	s.cachedContent = strings.Clone(content)
 	s.cachedUserLookupMap = userLookupMap
 	s.cachedCredMap = credMap
-	s.mu.Unlock()
 
 	if s.tcp != nil {
 		s.tcp.ReplaceUserLookupMap(maps.Clone(s.cachedUserLookupMap))
@@ -369,6 +372,7 @@ func (s *ManagedServer) LoadFromFile() error {
 	if s.udp != nil {
 		s.udp.ReplaceUserLookupMap(maps.Clone(s.cachedUserLookupMap))
 	}
+	s.mu.Unlock()
 
 	return nil
 }
